@@ -242,9 +242,36 @@ def p_rowseq(at):
     return Maker(mk, desc="list[list[str]] (symbolic number of rows of symbolic length, read only)")
 
 
+# identity sets: `{id(x) for ...}` / `id(p) in ids` (membership only)
+IDSET = ext_sort("IdSet")
+ID_OF = z3.Function("py.id", ET.ELEM, I)
+ID_MEMBER = z3.Function("idset.member", IDSET, I, B)
+
 STRSET = ext_sort("StrSet")
 MEMBER = z3.Function("set.member", STRSET, S, B)
 EMPTYSET = z3.Const("set.empty", STRSET)
+
+
+CONST_SETS: dict = {}       # name of the constant -> (term, members)
+
+
+def const_strset(items):
+    """StrSet term denoting a constant set of strings; its membership definition is instantiated by unfolding."""
+    items = tuple(sorted(items))
+    name = "strset{" + ",".join(items) + "}"
+    if name not in CONST_SETS:
+        CONST_SETS[name] = (z3.Const(name, STRSET), items)
+    return CONST_SETS[name][0]
+
+
+def _member_def(s_, t):
+    if z3.is_const(s_) and s_.decl().name() in CONST_SETS:
+        items = CONST_SETS[s_.decl().name()][1]
+        return [MEMBER(s_, t) == z3.Or([t == lit(k) for k in items] + [z3.BoolVal(False)])]
+    return []
+
+
+define(MEMBER, _member_def, aux=True)
 
 
 def p_strset():
@@ -265,6 +292,7 @@ def set_member(v, s):
 # ------------------------------------------------------------------- executor --
 class C02Executor(Executor):
     def __init__(self, *a, **kw):
+        self.unknown_items_are_str = kw.pop("unknown_items_are_str", False)
         super().__init__(*a, **kw)
         self.extra_axioms: list = []
 
@@ -272,6 +300,7 @@ class C02Executor(Executor):
         sub = type(self)(module, self.reg, self.uni)
         sub.refs = self.refs
         sub.extra_axioms = self.extra_axioms
+        sub.unknown_items_are_str = self.unknown_items_are_str
         return sub
 
     # -- VCs: labelled conjunctions + definitional unfolding + global axioms ---------
@@ -379,9 +408,16 @@ class C02Executor(Executor):
                 return [(s2, None)]
         return super().binop(st, op, a, b, node, inplace)
 
+    def b_id(self, st, args, kwargs, node):
+        if len(args) == 1 and isinstance(args[0], VExt) and args[0].sort == "Elem":
+            return [(st, VInt(ID_OF(args[0].t)))]          # id() is a function of the object (PY-ALIAS: injective on live objects)
+        return super().b_id(st, args, kwargs, node)
+
     def contains(self, st, container, item, node):
         if isinstance(container, VExt) and container.sort == "StrSet" and isinstance(item, VStr):
             return [(st, VBool(MEMBER(container.t, item.t)))]
+        if isinstance(container, VExt) and container.sort == "IdSet" and isinstance(item, VInt):
+            return [(st, VBool(ID_MEMBER(container.t, ops.int_term(item))))]
         return super().contains(st, container, item, node)
 
     # -- attributes / methods / iteration ---------------------------------------------------
@@ -467,8 +503,14 @@ class C02Executor(Executor):
                 d = slist_of(st, obj)
             else:
                 return super().list_method(st, obj, name, args, kwargs, node)
+        if name == "clear" and not args:
+            self.note_store(st, obj.ref, node)
+            st.wobj(obj.ref).data = dict(n=z3.IntVal(0), cat=lit(""), lead=lit(""))
+            return [(st, NONE)]
         if name == "append" and len(args) == 1:
             x = args[0]
+            if isinstance(x, VUnk) and getattr(self, "unknown_items_are_str", False):
+                x = VStr(z3.String(fresh_name("item")))          # DT-TYPED: an unknown item of a list[str] is some string
             if not isinstance(x, VStr):
                 raise Unsupported(f"{self.loc(node)} append of {x!r} to a str list")
             self.note_store(st, obj.ref, node)
@@ -530,6 +572,39 @@ class C02Executor(Executor):
                                 return True
         return False
 
+    def s_While(self, s, st):
+        """`LoopSpec.step(start_ctx, end_ctx) -> Conj`: a two-state property of ONE iteration started in an arbitrary
+        state (everything the body assigns is havocked; no invariant is assumed, none is needed after the loop)."""
+        from pyvc.symex import LoopCtx, Outcome
+        spec = self.loop_spec(s)
+        step = getattr(spec, "step", None) if spec is not None else None
+        if step is None:
+            return super().s_While(s, st)
+        label = spec.label or "loop"
+        entry = st.fork()
+        body_st = st.fork()
+        self.havoc_loop_state(body_st, s.body, spec)
+        after0 = body_st.fork()
+        after0.pc = list(st.pc)
+        outs = []
+        for (s2, g) in self.ev(s.test, body_st):
+            for (s3, b) in self.fork_truth(s2, g):
+                if not b:
+                    continue
+                start = s3.fork()
+                for o in self.exec_block(s.body, s3):
+                    if o.kind in ("fall", "continue"):
+                        self.add_vc("step", label, o.st.pc, step(LoopCtx(self, start, None, entry), LoopCtx(self, o.st, None, entry)), loc=self.loc(s))
+                    elif o.kind == "break":
+                        outs.append(Outcome("fall", o.st))
+                    else:
+                        outs.append(o)
+        for (s2, g) in self.ev(s.test, after0):
+            for (s3, b) in self.fork_truth(s2, g):
+                if not b:
+                    outs.append(Outcome("fall", s3))
+        return outs
+
     def apply_contract(self, st, c, args, kwargs, node):
         names = [p[0] for p in c.params]
         amap = dict(zip(names, args))
@@ -580,6 +655,14 @@ def m_join(ex, st, args, kwargs, node):
     sep, it = args[0], args[1]
     d = slist_of(st, it)
     if d is None:
+        o = st.heap.get(it.ref) if isinstance(it, VRef) else None
+        if o is not None and o.kind == "olist":           # C17's open list (abstract prefix + appended tail): opaque result
+            if not (o.data["ekind"] == "str" and all(isinstance(x, VStr) for x in o.data["tail"])):
+                ex.exc_any(st.fork(), f"{ex.loc(node)} join of a list not known to hold only str")
+            return [(st, VStr(z3.String(fresh_name("join"))))]
+        if isinstance(it, VUnk):                          # join of an unknown iterable: may raise, result opaque (EXC-ANY)
+            ex.exc_any(st.fork(), f"{ex.loc(node)} join(unknown)")
+            return [(st, VStr(z3.String(fresh_name("join"))))]
         raise Unsupported(f"{ex.loc(node)} join of {it!r}")
     c = sep.const()
     if c == "":
